@@ -1396,6 +1396,42 @@ package gocql
 //@   before[C09] Abs: Sub_calls == 1 && Abs_calls == 1 && arg0 == val && arg1 == val
 //@   at_return[C09] SetBytes_calls == 1 && Sub_calls == ite(sum[0] >= 128, 1, 0) && Abs_calls == Sub_calls
 
+// Which bound value, encoded with which type, is component i of the routing key. Protocol v4+: the server names
+// the bind positions of the partition key (pk_indices, proved to be positions of bind markers where they are
+// parsed); component i has the type of the bind marker at position i of that list. Before v4: the partition key
+// columns of the table, each matched by name with the first bind marker of that name. The statement cache,
+// connection choice and schema lookup around it are trusted (they decide whether there is a table, not what is in it).
+//@ func (s *Session) getConn
+//@   props C09
+//@   trusted a connection of some host that is up (pool and ring internals: C16); none when there is no such host
+//@   modifies nothing
+//@   ensures result != nil ==> conn_ok(result) && result.session != nil && result.session.stmtsLRU != nil && result.host != nil && plru_bound(result.session.stmtsLRU)
+
+//@ func (s *Session) KeyspaceMetadata
+//@   props C09
+//@   trusted schema of a keyspace as read over the control connection
+//@   preserves_types preparedStatment routingKeyInfo inflightCachedEntry Cache
+//@   ensures result1 == nil ==> result0 != nil && forall(string(t), haskey(result0.Tables, t) ==> result0.Tables[t] != nil && forall(k, 0 <= k && k < len(result0.Tables[t].PartitionKey), result0.Tables[t].PartitionKey[k] != nil))
+
+//@ func (r *routingKeyInfoLRU) Remove
+//@   props C09
+//@   trusted forgets a failed entry (lru internals: C14)
+//@   preserves_types preparedStatment routingKeyInfo inflightCachedEntry KeyspaceMetadata TableMetadata ColumnMetadata
+
+//@ func (s *Session) routingKeyInfo
+//@   props C09
+//@   requires s != nil && ctx != nil
+//@   assume s.routingKeyInfoCache.lru != nil && cache_bound(s.routingKeyInfoCache.lru)
+// the cache holds only the in-flight entries this function puts there
+//@   assume_after Cache.Get: Cache_Get_ret1 ==> typeis(Cache_Get_ret0, *inflightCachedEntry) && unbox(Cache_Get_ret0, *inflightCachedEntry) != nil
+//@   count_calls Cache.Get
+//@   loop 0: invariant 0 <= rangeindex + 1 && len(types) == len(info.request.pkeyColumns) && info != nil
+//@   loop 0: step types[i] == info.request.columns[info.request.pkeyColumns[i]].TypeInfo
+//@   loop 1: invariant routingKeyInfo != nil && len(routingKeyInfo.indexes) == size && len(routingKeyInfo.types) == size && size == len(partitionKey) && info != nil && forall(k, 0 <= k && k < len(partitionKey), partitionKey[k] != nil)
+//@   loop 2: invariant routingKeyInfo != nil && len(routingKeyInfo.indexes) == size && len(routingKeyInfo.types) == size && size == len(partitionKey) && info != nil && 0 <= keyIndex && keyIndex < size && keyColumn != nil && forall(k, 0 <= k && k < len(partitionKey), partitionKey[k] != nil)
+// a name match takes that marker's position and type
+//@   loop 2: exit routingKeyInfo.indexes[keyIndex] != -1 ==> 0 <= routingKeyInfo.indexes[keyIndex] && routingKeyInfo.indexes[keyIndex] < len(info.request.columns) && routingKeyInfo.types[keyIndex] == info.request.columns[routingKeyInfo.indexes[keyIndex]].TypeInfo && keyColumn.Name == info.request.columns[routingKeyInfo.indexes[keyIndex]].Name
+
 //@ func createRoutingKey
 //@   props C09
 //@   count_calls Marshal
@@ -2561,6 +2597,9 @@ package gocql
 // what a waiter reads after the entry's completion is what the winner's goroutine (prepareStatement$2,
 // proved) left there: a statement whose bind metadata has one column specification per marker, or an error
 //@   ensures_assumed result1 == nil ==> result0 != nil && result0.request.actualColCount == len(result0.request.columns) && result0.request.actualColCount >= 0
+// (parsePreparedMetadata, proved: the column count is the number of column specifications, and every partition key
+// index is the position of one of them)
+//@   ensures_assumed result1 == nil ==> result0.request.colCount == len(result0.request.columns) && forall(k, 0 <= k && k < len(result0.request.pkeyColumns), 0 <= result0.request.pkeyColumns[k] && result0.request.pkeyColumns[k] < len(result0.request.columns))
 //@   ensures c.session == old(c.session) && c.session.stmtsLRU == old(c.session.stmtsLRU) && c.host == old(c.host) && c.logger == old(c.logger) && c.version == old(c.version) && c.compressor == old(c.compressor) && c.streams == old(c.streams)
 //@   preserves_types Query
 //@   ensures plru_bound(c.session.stmtsLRU)
